@@ -1,5 +1,6 @@
 import Gtree.Lemmas.Validate
 import Gtree.Props.C05
+import Gtree.Lemmas.Confined
 /-
   C07 — names are validated first: a tree containing a name that is not a single valid path element
   is rejected, and (without the massive option) nothing at all is created – for From-Markdown and
@@ -86,5 +87,82 @@ theorem C07_paths_under_target (f : Fmt) (t : T) (h : AllElemT t) (ts : List Byt
   refine ⟨names, hne, hel, hp, ?_⟩
   rw [hp]
   exact filepathJoin_valid ts names ht hne hts hel
+
+end Gtree
+
+namespace Gtree
+
+theorem mkdirRoots_go_changes (target : Bytes) (exts : List Bytes) : ∀ (roots : List (List Visit)) (fs : FS) (p : Bytes),
+    (∀ vs ∈ roots, ∀ v ∈ vs, p ∉ touched target exts v) →
+    (mkdirRoots.go target exts fs roots).1.lookup p = fs.lookup p
+  | [], fs, p, _ => by simp [mkdirRoots.go]
+  | vs :: rest, fs, p, h => by
+    have h1 := mkNodes_changes target exts vs fs p (h vs (by simp))
+    simp only [mkdirRoots.go]
+    cases hm : mkNodes target exts fs vs with
+    | mk fs1 e1 =>
+      rw [hm] at h1
+      cases e1 with
+      | some e => exact h1
+      | none =>
+        simp only
+        rw [mkdirRoots_go_changes target exts rest fs1 p (fun ws hws => h ws (by simp [hws]))]
+        exact h1
+
+/-- C07 (first sentence), for EVERY forest (any names), every extension list, dry-run or real, every file
+    system and every outcome (success, path-exists, OS refusal half-way): with a clean relative target
+    directory, the only keys of the file system a From-Root Mkdir can change are non-empty prefixes of
+    the target path, the target, and paths below the target. Either a name is invalid and nothing
+    changes at all, or every path handed to MkdirAll / Create is the target joined with valid names. -/
+theorem C07_confined (f : Fmt) (exts : List Bytes) (ts : List Bytes) (hts : ts ≠ []) (hte : ∀ e ∈ ts, Elem e)
+    (dry : Bool) (roots : List T) (fs : FS) (p : Bytes)
+    (hp : (mkdirRootsApi f exts (key ts) dry roots fs).fs.lookup p ≠ fs.lookup p) : InTarget ts p := by
+  simp only [mkdirRootsApi] at hp
+  cases hv : validateVisits (roots.map (growRoot f)).flatten with
+  | some e => simp [hv] at hp
+  | none =>
+    simp only [hv] at hp
+    cases dry with
+    | true => simp at hp
+    | false =>
+      simp only [Bool.false_eq_true, if_false] at hp
+      have hchanged : (mkdirRoots fs (key ts) exts (roots.map (growRoot f))).1.lookup p ≠ fs.lookup p := by
+        cases hm : mkdirRoots fs (key ts) exts (roots.map (growRoot f)) with
+        | mk fs' e' =>
+          rw [hm] at hp
+          cases e' <;> simpa using hp
+      unfold mkdirRoots at hchanged
+      by_cases hex : anyRootExists fs (key ts) (roots.map (growRoot f)) = true
+      · simp [hex] at hchanged
+      · simp only [hex, Bool.false_eq_true, if_false] at hchanged
+        -- some visit touches p
+        have : ¬ (∀ vs ∈ roots.map (growRoot f), ∀ v ∈ vs, p ∉ touched (key ts) exts v) :=
+          fun hall => hchanged (mkdirRoots_go_changes (key ts) exts _ fs p hall)
+        have hsome : ∃ vs ∈ roots.map (growRoot f), ∃ v ∈ vs, p ∈ touched (key ts) exts v := by
+          apply Classical.byContradiction
+          intro hno
+          apply this
+          intro vs hvs v hvv hpt
+          exact hno ⟨vs, hvs, v, hvv, hpt⟩
+        obtain ⟨vs, hvs, v, hvv, hpt⟩ := hsome
+        obtain ⟨t, ht, rfl⟩ := List.mem_map.mp hvs
+        have hvalid : AllElemT t := by
+          apply allElemT_of_visits f t
+          intro w hw
+          have hmem : w ∈ (roots.map (growRoot f)).flatten :=
+            List.mem_flatten.mpr ⟨growRoot f t, List.mem_map.mpr ⟨t, ht, rfl⟩, hw⟩
+          exact elem_of_singleElem _ (validateVisit_none_single w (validateVisits_none_mem _ hv w hmem))
+        exact touched_inTarget f exts ts hts hte t hvalid v hvv p hpt
+
+/-- the same through the From-Markdown entry point, for every document -/
+theorem C07_confined_md (f : Fmt) (exts : List Bytes) (ts : List Bytes) (hts : ts ≠ []) (hte : ∀ e ∈ ts, Elem e)
+    (dry : Bool) (inp : Input) (fs : FS) (p : Bytes)
+    (hp : (mkdirMd f exts (key ts) dry inp fs).fs.lookup p ≠ fs.lookup p) : InTarget ts p := by
+  simp only [mkdirMd] at hp
+  cases hg : (generate inp).err with
+  | some e => simp [hg] at hp
+  | none =>
+    simp only [hg] at hp
+    exact C07_confined f exts ts hts hte dry _ fs p hp
 
 end Gtree
